@@ -31,6 +31,18 @@ def run_one(mod, case):
         out = {"purity_error": "unexpected exception", "unexpected": "".join(traceback.format_exception_only(type(e), e)).strip()}
         viol.append("the implementation raised an exception outside the documented ones: %s" % out["unexpected"])
         return out, viol
+    # the same case under the second decoding of the labels (common.twin_labels): same coded result
+    if (getattr(mod, "twin_ok", None) and mod.twin_ok(case)) or (os.environ.get("VERIF_TWIN_TRY") and C.no_matrix(case)):
+        try:
+            with C.twin_labels():
+                out2 = mod.run_impl(case)
+        except Exception as e:
+            out2 = {"unexpected": "".join(traceback.format_exception_only(type(e), e)).strip()}
+        if out2 != out:
+            diff = sorted(k for k in set(out) | set(out2) if out.get(k) != out2.get(k))
+            viol.append("the result depends on the labels beyond their ordering_key order: with labels of mixed numeric types "
+                        "(float / Fraction / int, same order) the coded result differs in %s: %r vs %r"
+                        % (diff, {k: out2.get(k) for k in diff}, {k: out.get(k) for k in diff}))
     try:
         viol.extend(mod.oracle(case, out) or [])
     except Exception as e:  # an oracle crash is an infrastructure problem, surfaced loudly
@@ -308,6 +320,7 @@ def main():
                 "disagreements": len(failing),
                 "oracle_violations": len(oracle_viol),
                 "tag_histogram": dict(sorted(tagc.items())),
+                "cases_also_run_with_twin_label_decoding": sum(1 for c in cases if getattr(mod, "twin_ok", None) and mod.twin_ok(c)),
                 "samples": samples,
                 "modelled_not_verified": getattr(mod, "MODELLED", ""),
             },
